@@ -293,6 +293,8 @@ func cmdCheck(argv []string) int {
 		ok        bool
 		anySat    bool
 		worst     *Obligation
+		fails     []*Obligation
+		unitOf    map[*Obligation]*Unit
 		backends  map[string]int
 		timeS     float64
 		coverSeen bool
@@ -332,6 +334,11 @@ func cmdCheck(argv []string) int {
 			}
 			if o.Result != "unsat" {
 				a.ok = false
+				if a.unitOf == nil {
+					a.unitOf = map[*Obligation]*Unit{}
+				}
+				a.fails = append(a.fails, o)
+				a.unitOf[o] = u
 				if a.worst == nil || (o.Result == "sat" && a.worst.Result != "sat") {
 					a.worst = o
 				}
@@ -356,6 +363,8 @@ func cmdCheck(argv []string) int {
 	var violations []string
 	var undecided []string
 	var knownLines []string
+	nReplays := 0
+	nConfirmed := 0
 	var samples []map[string]any
 	replayDir := filepath.Join(verifDir(), "replays", prop)
 	seenNow := map[string]bool{}
@@ -412,12 +421,34 @@ func cmdCheck(argv []string) int {
 		rp := filepath.Join(replayDir, smtName(strings.ReplaceAll(name, "#", "__"))+".json")
 		rec := map[string]any{"property": prop, "obligation": name, "where": o.Where, "result": o.Result, "path": o.Trace, "solver_output": o.Output, "goal": o.Goal}
 		replayed := false
-		if o.Result == "sat" {
-			if ok, info := tryReplay(prop, name, o, rec); ok {
-				replayed = true
-				rec["replay"] = info
-			} else if info != "" {
-				rec["replay"] = info
+		if nReplays < 4 && os.Getenv("GOCV_NO_REPLAY") == "" {
+			// candidates: the instance reported, then the other failing instances (other paths) of the same obligation
+			cands := []*Obligation{o}
+			for _, f := range a.fails {
+				if f != o {
+					cands = append(cands, f)
+				}
+			}
+			tried := 0
+			for _, f := range cands {
+				ru := a.unitOf[f]
+				if ru == nil || ru.root().replay == nil || tried >= 2 {
+					break
+				}
+				tried++
+				ok, info := tryReplay(ru.root(), prop, name, f, replayDir)
+				if info != nil {
+					info["return_path"] = f.Trace
+					rec["replay"] = info
+				}
+				if ok {
+					replayed = true
+					nConfirmed++
+					break
+				}
+			}
+			if tried > 0 {
+				nReplays++
 			}
 		}
 		data, _ := json.MarshalIndent(rec, "", " ")
@@ -433,7 +464,7 @@ func cmdCheck(argv []string) int {
 			}
 		}
 		switch {
-		case o.Result == "sat" || baseline[name]:
+		case o.Result == "sat" || baseline[name] || replayed:
 			suffix := ""
 			if !replayed {
 				suffix = " obligation=" + name + " result=" + o.Result + " no-failing-input-found"
@@ -562,6 +593,8 @@ func cmdCheck(argv []string) int {
 			"inlined":                  notes["inlined"],
 			"spawned":                  notes["spawned"],
 			"known_finding_canaries":   knownLines,
+			"replayable_functions":     replayable(units),
+			"replays_confirmed":        nConfirmed,
 			"bounded_checks":           meta.Bounded,
 			"undecided_clauses":        meta.Undecided,
 			"baseline_obligations_not_generated": missing,
@@ -582,6 +615,18 @@ func cmdCheck(argv []string) int {
 		return 3
 	}
 	return exit
+}
+
+// replayable: the functions of this run for which a failed obligation is followed up by a run of the real code
+// (plain-data inputs; see replay.go). For every other function a VIOLATION line ends with no-failing-input-found.
+func replayable(units []*Unit) []string {
+	out := []string{}
+	for _, u := range units {
+		if u.replay != nil {
+			out = append(out, u.name)
+		}
+	}
+	return out
 }
 
 func countInstances(units []*Unit) int {
